@@ -339,7 +339,7 @@ func c12Kinds(r *R) {
 		if fn == nil {
 			continue
 		}
-		v := fn.Params[0].Name()
+		v := core.ParamName(fn.Params[0])
 		var atoms []string
 		for i := 0; i < 8; i++ {
 			atoms = append(atoms, fmt.Sprintf("%d:uint64==%s.MessageType", i, v))
